@@ -2042,6 +2042,13 @@ def _percent_sources(idx, fi, expr, env, depth=2):
         if nf.match('float(_W[:-1])', n) is not None:
             return True
     if depth > 0:
+        # a name bound more than once (e.g. initialised to None, then set in a branch): any of its values may carry it
+        for n in ast.walk(e):
+            if isinstance(n, ast.Name) and n.id not in env:
+                for v in lib.assigned_value(fi.node, n.id):
+                    if not (isinstance(v, ast.Name) and v.id == n.id) and _percent_sources(idx, fi, v, env, depth - 1):
+                        return True
+    if depth > 0:
         for n in ast.walk(e):
             if isinstance(n, ast.Call) and isinstance(n.func, ast.Name) and n.func.id in fi.module.funcs:
                 h = fi.module.funcs[n.func.id]
@@ -2374,6 +2381,8 @@ BENIGN = [
            "    return is_nearly_zero(x - y, tolerance, reference=x)\n\ndef is_nearly_zero"),
     Benign('agreed-record-updated-from-answer', MH, "        if answer is None:\n            answer = {'ok': True, 'grade_decimal': 1, 'msg': ''}\n        \n        # answer can contain extra keys, so prune them\n        pruned_answer = {key: answer[key] for key in ['ok', 'grade_decimal', 'msg']}\n",
            "        pruned_answer = dict(ok=True, grade_decimal=1, msg='')\n        if answer is not None:\n            pruned_answer.update(ok=answer['ok'], grade_decimal=answer['grade_decimal'], msg=answer['msg'])\n"),
+    Benign('transform-both-in-one-map', CMP, "        expected_eval = transform(expected_eval)\n        student_eval = transform(student_eval)\n",
+           "        expected_eval, student_eval = [transform(value) for value in (expected_eval, student_eval)]\n"),
     Benign('tolerance-any-order', MH, "        Required('tolerance', default='0.01%'): Any(PercentageString, NonNegative(Number)),",
            "        Required('tolerance', default='0.01%'): Any(NonNegative(Number), PercentageString),"),
 ]
